@@ -49,6 +49,7 @@ pub fn space_text(prop: u8) -> &'static str {
         1 | 2 => "size sweep: every queue size 2..=64 and a dense subset up to 600 x 4 priority patterns x {root to below-min, pop, last leaf to above-max, remove root, pop_if rewriting to below-min, extreme ties}",
         11 => "size sweep: every queue size 2..=1100 x 4 priority patterns x push_decrease of root / second level to below-min, push_increase of the last leaf to above-max, ties with the extremes; and push_increase / push_decrease x 9 offered-priority classes x every target position x n <= 6 x 3 priority patterns x both kinds",
         13 => "all call programs of length <= 6 on iter/&q/into_iter/drain/sorted over n <= 4, and all 42 adaptor compositions x arguments 0..=n+2 x 6 iterator kinds x n <= 4, both kinds",
+        17 => "capacity battery: 7 amounts from 65 537 to 8 388 608 elements x {with_capacity, with_capacity_and_hasher, with_capacity_and_default_hasher, reserve, reserve_exact, try_reserve, try_reserve_exact} x both kinds, each followed by pushes, pops, shrink_to_fit and a second reservation",
         _ => "",
     }
 }
@@ -59,6 +60,50 @@ pub fn small_cases(prop: u8) -> Vec<Case> {
     let full = [ItCall::Next, ItCall::Back, ItCall::Probe];
     let fwd = [ItCall::Next, ItCall::Probe];
     match prop {
+        17 => {
+            // amounts between the sizes random generation affords (< 20 000) and the unsatisfiable ones:
+            // 65 537 ... 8 388 608 elements, through every constructor that takes a capacity and every
+            // reservation call, each followed by ordinary use and shrink_to_fit
+            let amounts: [u32; 7] = [65_537, 262_144, 1_048_583, 1 << 21, 4_194_309, 5_000_000, 1 << 23];
+            for kind in kinds {
+                for (i, &c) in amounts.iter().enumerate() {
+                    for ctor in [CtorKind::WithCapacity(c), CtorKind::WithCapacityAndHasher(c), CtorKind::WithCapacityAndDefaultHasher(c)] {
+                        let mut case = mk(
+                            kind,
+                            ctor,
+                            init(5, 0),
+                            vec![
+                                Op::Push { t: Target::Id(7), tag: 1, p: PrioSpec::AboveMax(1) },
+                                Op::Pop { end: End::Max },
+                                Op::Shrink,
+                                Op::Push { t: Target::Id(8), tag: 1, p: PrioSpec::BelowMin(1) },
+                                Op::Pop { end: if kind == Kind::DPQ { End::Min } else { End::Max } },
+                            ],
+                        );
+                        case.drain_every = 3;
+                        v.push(case);
+                    }
+                    for how in [ResKind::Reserve, ResKind::ReserveExact, ResKind::TryReserve, ResKind::TryReserveExact] {
+                        let mut case = mk(
+                            kind,
+                            CtorKind::New,
+                            init(3 + i, (i % 3) as u8),
+                            vec![
+                                Op::Reserve { how, amt: Amount::Small(c) },
+                                Op::Push { t: Target::Id(9), tag: 1, p: PrioSpec::AboveMax(1) },
+                                Op::Pop { end: End::Max },
+                                Op::Shrink,
+                                Op::Reserve { how, amt: Amount::Small(c / 3 + 1) },
+                                Op::Change { t: Target::Slot(0), p: PrioSpec::AboveMax(2), by_ref: true },
+                                Op::Pop { end: End::Max },
+                            ],
+                        );
+                        case.drain_every = 4;
+                        v.push(case);
+                    }
+                }
+            }
+        }
         9 => {
             for kind in kinds {
                 let progs = if kind == Kind::DPQ { programs(&full, 7) } else { programs(&fwd, 7) };
